@@ -172,13 +172,8 @@ def parents(node, stop):
 
 
 def in_positive_branch(node, stop, pred):
-    node = getattr(node, "_origin", node)
-    child, p = node, getattr(node, "_parent", None)
-    while p is not None and p is not stop:
-        if isinstance(p, ast.If) and child in p.body and pred(ast.unparse(p.test)):
-            return True
-        child, p = p, getattr(p, "_parent", None)
-    return False
+    """some enclosing condition that HOLDS at node (either branch polarity, `not` / `!=` normalised) satisfies pred(text)"""
+    return any(pol and pred(ast.unparse(t)) for t, pol in df.branch_conditions(node, stop))
 
 
 def zero_guarded(idx, base, m, ret):
